@@ -72,6 +72,30 @@ def check_fresh(ctx, cmds, routs):
                  {"cmds": cmds, "step": tail[k], "got": mine[k], "fresh": fouts[k]}, "history-dependent")
 
 
+def check_load(ctx, drv, cmds, routs):
+    """'for any sequence of recipe updates AND LOADS ... resolution is a pure function of the rule list': a second object that LOADS the
+    exported rule list (the load path rebuilds every config from its dictionary) exports the same list and resolves every query alike"""
+    exported = routs[-1]
+    if not isinstance(exported, list) or not exported:
+        return
+    n = len(fr.queries())
+    cmds2 = [{"k": "load", "recipe_plain": exported}, {"k": "get"}] + fr.queries()
+    routs2, _ = fr.run_history(ctx, drv, cmds2, family="recipe.load_history")
+    ctx.tag("export_then_load")
+    if any(e.get("op_config", {}).get("skip_checks") for e in exported if isinstance(e, dict)):
+        ctx.tag("export_then_load_skip_checks")
+    if routs2[0] != "ok":
+        return ctx.fail(f"loading a recipe exported by get_quantization_recipe() raised {routs2[0]}", {"cmds": cmds, "exported": exported}, "load-of-export-raised")
+    if json.dumps(routs2[1]) != json.dumps(exported):
+        return ctx.fail("a rule list that was LOADED is exported differently from the list that was loaded",
+                        {"cmds": [c for c in cmds if c["k"] in ("add", "load")], "exported": exported, "after_load": routs2[1]}, "load-changes-rules")
+    before = routs[-(n + 1):-1]
+    for q, x, y in zip(fr.queries(), before, routs2[2:]):
+        if json.dumps(x) != json.dumps(y):
+            return ctx.fail("the same rule list resolves differently when it was loaded than when it was built by updates",
+                            {"cmds": [c for c in cmds if c["k"] in ("add", "load")], "query": q, "updates": x, "loaded": y}, "load-resolves-differently")
+
+
 def check_pure(ctx, cmds, routs):
     gets = [r for c, r in zip(cmds, routs) if c["k"] == "get"]
     if len(gets) >= 2 and json.dumps(gets[-1]) != json.dumps(gets[-2]):
@@ -139,6 +163,7 @@ def run(ctx):
         routs, _ = fr.run_history(ctx, drv, cmds)
         oracle(ctx, cmds, routs)
         check_fresh(ctx, cmds, routs)
+        check_load(ctx, drv, cmds, routs)
         ctx.case({"star_reset": (na, nb)}, True)
         n_pairs += 1
     ctx.extra["star_reset_after_query_pairs"] = n_pairs
@@ -178,6 +203,7 @@ def run(ctx):
         oracle(ctx, cmds, routs)
         check_pure(ctx, cmds, routs)
         check_fresh(ctx, cmds, routs)
+        check_load(ctx, drv, cmds, routs)
         ctx.case({"adds": [(x["regex"], x["operation"], x["alg"]) for x in adds]}, True)
         for c, r in zip(cmds, routs):
             if c["k"] == "add":
